@@ -24,18 +24,33 @@ def run_case(case, mode, rng):
     import torch
     base = jsl.load_config()
     cfg = jsl.with_cfg(base, **case["cfg"])
-    if mode in ("polluted", "interleaved"):
+    if mode in ("polluted", "interleaved", "shared"):
         for _ in range(rng.randint(1, 50)):
             random.random(); np.random.rand(); torch.rand(1)
-    env = trace.make_env(case["dsl"], cfg, None, seed=case["seed"])
     other = None
+    if mode == "shared":
+        # two environments handed the SAME Compiler object (the documented way to pass an instance): the other one
+        # runs a few steps first, then both are stepped alternately
+        from jobshoplab.env.env import JobShopLabEnv
+        comp = jsl.make_compiler(case["dsl"], cfg)
+        other = JobShopLabEnv(config=cfg, compiler=comp, seed=rng.choice([case["seed"], case["seed"] + 17]))
+        for _ in range(rng.randint(0, 12)):
+            if other.done:
+                break
+            try:
+                other.step(rng.choice([0, 1, 1]))
+            except Exception:
+                break
+        env = JobShopLabEnv(config=cfg, compiler=comp, seed=case["seed"])
+    else:
+        env = trace.make_env(case["dsl"], cfg, None, seed=case["seed"])
     if mode == "interleaved":
         other = trace.make_env(case["dsl"], cfg, None, seed=case["seed"] + 17)
     out = []
     acts = list(case["actions"])
     for ep in range(case["resets"] + 1):
         if ep > 0:
-            if mode in ("polluted", "interleaved"):
+            if mode in ("polluted", "interleaved", "shared"):
                 np.random.rand(3); random.random(); torch.rand(2)
             obs, info = env.reset()
             out.append(digest("reset" + obs_repr(obs)))
